@@ -225,7 +225,10 @@ func msgpackValues(b []byte) [][2]int {
 	return out
 }
 
-var msgpackJunk = [][]byte{{0xc0}, {0x90}, {0x80}, {0x00}, {0xff}, {0xa0}, {0xc4, 0x00}, {0xc3}, {0x91, 0xc0}, {0x81, 0xa0, 0xc0}, {0xa1, 'x'}, {0xc4, 0x01, 0x00}, {0xd6, 0xff, 0, 0, 0, 0}, {0xcf, 0xff, 0xff, 0xff, 0xff, 0xff, 0xff, 0xff, 0xff}}
+var msgpackJunk = [][]byte{{0xa2, 0xff, 0xfe}, {0xa1, 0xc0}, {0xd9, 0x02, 0xc3, 0x28}, {0x82, 0xa1, 'a', 0x01, 0xa1, 'a', 0x02}, {0x82, 0xa1, 'n', 0xa1, 'x', 0xa1, 'n', 0xc0},
+	{0xcb, 0x7f, 0xf8, 0, 0, 0, 0, 0, 1}, {0xcb, 0x7f, 0xf0, 0, 0, 0, 0, 0, 0}, {0xca, 0xff, 0x80, 0, 0}, {0xdd, 0x00, 0x10, 0x00, 0x00}, {0xdf, 0x00, 0x10, 0x00, 0x00}, {0xc6, 0x00, 0x10, 0x00, 0x00}, {0xdb, 0x00, 0x10, 0x00, 0x00},
+	{0xd3, 0x80, 0, 0, 0, 0, 0, 0, 0}, {0xc1}, {0xc7, 0xff, 0x01}, {0xc9, 0x00, 0x01, 0x00, 0x00, 0x00}, {0xd7, 0xff, 0xff, 0xff, 0xff, 0xff, 0xff, 0xff, 0xff, 0xff},
+	{0xc0}, {0x90}, {0x80}, {0x00}, {0xff}, {0xa0}, {0xc4, 0x00}, {0xc3}, {0x91, 0xc0}, {0x81, 0xa0, 0xc0}, {0xa1, 'x'}, {0xc4, 0x01, 0x00}, {0xd6, 0xff, 0, 0, 0, 0}, {0xcf, 0xff, 0xff, 0xff, 0xff, 0xff, 0xff, 0xff, 0xff}}
 
 func minI(a, b int) int {
 	if a < b {
@@ -236,7 +239,7 @@ func minI(a, b int) int {
 
 var interesting = []byte{0x00, 0x01, 0x7f, 0x80, 0xff, 0xc0, 0xc1, 0xc4, 0xc6, 0xd9, 0xdb, 0xdc, 0xdd, 0xde, 0xdf, 0xa0, 0x90, 0x91, 0x81, 0xcf, 0xd3, 0xd6, 0xd7, 0xc7, '{', '}', '[', ']', '"', ',', ':', '&', '=', '%'}
 
-var jsonJunk = []string{"null", "[]", "{}", "\"x\"", "-1", "1e999", "true", "\"\"", "[null]", "{\"/\":\"x\"}", "\"/ip4/1.2.3.4\"", "18446744073709551616", "\"\\ud800\"", "[[[[[[[[]]]]]]]]"}
+var jsonJunk = []string{"NaN", "Infinity", "-Infinity", "-0", "1e-999", "-1e999", "0.1e+400", "123456789012345678901234567890123456789", "-9223372036854775809", "1.5", "\"\xff\xfe\"", "\"\xc3(\"", "\"\\udc00\"", "{\"a\":1,\"a\":2}", "{\"cid\":{\"/\":1},\"cid\":null}", "0x10", "01", "+1", "[1,]", "\"\u0000\"", "null", "[]", "{}", "\"x\"", "-1", "1e999", "true", "\"\"", "[null]", "{\"/\":\"x\"}", "\"/ip4/1.2.3.4\"", "18446744073709551616", "\"\\ud800\"", "[[[[[[[[]]]]]]]]"}
 var queryJunk = []string{"", "abc", "-1", "99999999999999999999", "%zz", "1h", "1ns", "-5s", "direct", "Qm", "/ip4/1.2.3.4", ",,,", "0001-01-01T00:00:00Z", "true", "2"}
 var queryKeys = []string{"replication", "replication-min", "replication-max", "shard-size", "user-allocations", "expire-at", "expire-in", "meta-", "meta-x", "pin-update", "origins", "mode", "name", "layout", "format", "chunker", "hash", "cid-version", "raw-leaves", "local", "shard", "nocopy", "progress", "stream-channels", "hidden", "recursive", "wrap-with-directory"}
 
@@ -305,6 +308,29 @@ func mutate(r *common.Rng, format string, bs []byte) []byte {
 				s = s + "&" + k + "=" + v
 			}
 			b = []byte(s)
+			continue
+		}
+		if r.Chance(1, 40) { // deeply nested containers in place of a value / at the end
+			depth := []int{50, 500, 5000, 20000}[r.Intn(4)]
+			var nest []byte
+			switch format {
+			case wire.FJSON:
+				nest = append([]byte(strings.Repeat("[", depth)), []byte(strings.Repeat("]", depth*r.Intn(2)))...)
+			case wire.FMsgpack, wire.FMsgpackRaft, wire.FSnapshot:
+				nest = append([]byte(strings.Repeat("\x91", depth)), 0xc0)
+				if r.Bool() {
+					nest = append([]byte(strings.Repeat("\x81\xa1a", depth)), 0xc0)
+				}
+			case wire.FProto:
+				nest = []byte(strings.Repeat("\x3b", depth))
+			default:
+				nest = []byte(strings.Repeat("%25", depth))
+			}
+			p := 0
+			if len(b) > 0 {
+				p = r.Intn(len(b) + 1)
+			}
+			b = append(b[:p:p], append(nest, b[p:]...)...)
 			continue
 		}
 		if len(b) == 0 {
